@@ -19,6 +19,7 @@ import (
 type c14Case struct {
 	Sessions    []int   `json:"sessions"`     // indices into the session catalogue
 	AdvSets     [][]int `json:"adv_sets"`     // per session: indices into the advertisement catalogue
+	PreAdvSets  [][]int `json:"adv_sets_set_before,omitempty"` // per session: a Set call made before the final one
 	CreateOrder []int   `json:"create_order"` // permutation
 	SetOrder    []int   `json:"set_order"`
 	MapOrder    []int   `json:"map_order_choices,omitempty"`
@@ -34,6 +35,12 @@ func (c *c14Case) build() []VerifSession {
 		s := cat[si]
 		for _, ai := range c.AdvSets[i] {
 			s.Advs = append(s.Advs, advs[ai].Adv())
+		}
+		if c.PreAdvSets != nil {
+			s.HasPre = true
+			for _, ai := range c.PreAdvSets[i] {
+				s.PreAdvs = append(s.PreAdvs, advs[ai].Adv())
+			}
 		}
 		out = append(out, s)
 	}
@@ -362,6 +369,29 @@ func TestVerif_C14(t *testing.T) {
 	}
 	reduced := [][]int{{}, {1}, {8}, {0, 3, 4}, {2, 5, 6}, {3, 8}}
 	work := 0
+	// histories of two Set calls on one session: the text must mean what the final Set requested
+	for i := range cat {
+		work++
+		if !verifrt.Mine(work) {
+			continue
+		}
+		for _, pre := range c14AdvSets {
+			for _, fin := range c14AdvSets {
+				c := &c14Case{Sessions: []int{i}, AdvSets: [][]int{fin}, PreAdvSets: [][]int{pre}, CreateOrder: identity(1), SetOrder: identity(1), Names: []string{cat[i].Name}}
+				skip := false
+				for _, s := range c.build() {
+					if _, inc := VerifRequested(VerifSession{Advs: s.PreAdvs}); inc {
+						skip = true
+					}
+				}
+				if skip {
+					continue
+				}
+				c14Check(res, c)
+				distinct++
+			}
+		}
+	}
 	for i := range cat {
 		work++
 		if verifrt.Mine(work) {
